@@ -77,11 +77,30 @@ REGISTRY = {
     "ApiState": [("src/print.cpp", None), ("src/api.cpp", ["get_num_threads", "set_num_threads"]),
                  ("src/util.cpp", ["get_status_precision", "set_status_precision", "set_alpha", "set_alpha_y",
                                    "set_alpha_z", "get_alpha", "get_alpha_y", "get_alpha_z"])],
+    # C08 / C03: PcModel/HardLoops.lean (S2_hard_thread / D_thread / the two OpenMP regions)
+    "HardLoops": [("src/deleglise-rivat/S2_hard.cpp", None), ("src/gourdon/D.cpp", None)],
+    # C08: PcModel/EasyLoops.lean, EasyAC.lean
+    "EasyLoops": [("src/deleglise-rivat/S2_easy.cpp", None), ("src/deleglise-rivat/S2_easy_libdivide.cpp", None),
+                  ("src/gourdon/AC.cpp", None), ("src/gourdon/AC_libdivide.cpp", None)],
     # C14: PcModel/CApi.lean
     "CApi": [("src/api_c.cpp", None)],
     # C19: PcModel/LiR.lean
     "LiR": [("src/RiemannR.cpp", None), ("src/LogarithmicIntegral.cpp", None)],
 }
+
+# twin translation units: (group, twin file, default file, [(regex, replacement)] applied to the twin's statements and
+# names). The models mirror the DEFAULT file; the twin (the one the CPU dispatch really runs on AVX512 / SVE machines)
+# must be the same text up to the counting primitive. Obligation: renamed twin function = default function.
+TWINS = [
+    ("HardLoops", "src/deleglise-rivat/S2_hard_multiarch_avx512.cpp", "src/deleglise-rivat/S2_hard.cpp",
+     [(r"count_avx512", "count")], ["S2_hard_thread", "S2_hard_OpenMP"]),
+    ("HardLoops", "src/deleglise-rivat/S2_hard_multiarch_arm_sve.cpp", "src/deleglise-rivat/S2_hard.cpp",
+     [(r"count_arm_sve", "count")], ["S2_hard_thread", "S2_hard_OpenMP"]),
+    ("HardLoops", "src/gourdon/D_multiarch_avx512.cpp", "src/gourdon/D.cpp",
+     [(r"count_avx512", "count")], ["D_thread", "D_OpenMP"]),
+    ("HardLoops", "src/gourdon/D_multiarch_arm_sve.cpp", "src/gourdon/D.cpp",
+     [(r"count_arm_sve", "count")], ["D_thread", "D_OpenMP"]),
+]
 
 TOK = re.compile(r"\"(?:[^\"\\\n]|\\.)*\"|'(?:[^'\\\n]|\\.)*'|[A-Za-z_][A-Za-z0-9_]*|\d[0-9A-Za-z_.']*|::|<<=|>>=|<=|>=|==|!=|\+=|-=|\*=|/=|%=|&=|\|=|\^=|\+\+|--|->|&&|\|\||\S")
 
@@ -370,7 +389,7 @@ def extract(repo, outdir, write_if_changed):
                "written against (translator/srcmirror_expected.json) and one obligation per function: the text in /repo is",
                "still that text. A failing obligation names the function whose model has to be re-read.", "-/",
                "import PcGen.SrcMirror%sData" % group, "namespace Pc.SrcMirror.%s" % group, ""]
-        names = []
+        names, twin_names = [], []
         egroup = exp.get(group, {})
         for f in cur[group]:
             cfun = dict(cur[group][f])
@@ -389,16 +408,44 @@ def extract(repo, outdir, write_if_changed):
                 names.append(idn)
                 if c != e:
                     info["changed_functions"].append("%s: %s" % (f, n))
+        # twin translation units of this group
+        for tg, tf, df, subs, only in TWINS:
+            if tg != group:
+                continue
+            tp = os.path.join(repo, tf)
+            if not os.path.exists(tp):
+                raise ValueError("registered twin file %s does not exist" % tf)
+            dfun = dict(cur[group][df])
+
+            def ren(x):
+                for a, b in subs:
+                    x = re.sub(a, b, x)
+                return x
+            tfun = [(ren(n), [ren(st) for st in sts]) for n, sts in split_functions(open(tp).read(), tf)]
+            for n in only:
+                if n not in dict(tfun):
+                    tfun.append((n, []))        # a twin function that disappeared: empty body, the obligation fails
+            for n, sts in tfun:
+                if n not in only:
+                    continue
+                idn = ident(tf, n) + "_twin"
+                data += lean_list(idn, sts)
+                obl += ["/-- `%s` of %s is `%s` of %s up to the counting primitive -/" % (n, tf, n, df),
+                        "theorem %s_text : Cur.%s = Cur.%s := rfl" % (idn, idn, ident(df, n)), ""]
+                twin_names.append((idn, ident(df, n)))
+                if sts != dfun[n]:
+                    info["changed_functions"].append("%s: %s differs from %s" % (tf, n, df))
         data += ["end Pc.SrcMirror.%s.Cur" % group, ""]
         obl += ["/-- every mirrored function of this group still has the recorded text -/",
-                "def AllText : Prop :=", "  " + " ∧\n  ".join("Cur.%s = Rec.%s" % (n, n) for n in names), "",
-                "theorem all_text : AllText :=", "  ⟨" + ",\n   ".join("%s_text" % n for n in names) + "⟩", "",
+                "def AllText : Prop :=", "  " + " ∧\n  ".join(["Cur.%s = Rec.%s" % (n, n) for n in names] +
+                                                               ["Cur.%s = Cur.%s" % t for t in twin_names]), "",
+                "theorem all_text : AllText :=", "  ⟨" + ",\n   ".join("%s_text" % n for n in names + [t[0] for t in twin_names]) + "⟩", "",
                 "/-- number of mirrored functions in this group -/",
                 "def count : Nat := %d" % len(names), "", "end Pc.SrcMirror.%s" % group, ""]
         ch1 = write_if_changed(os.path.join(outdir, "SrcMirror%sData.lean" % group), "\n".join(data))
         ch2 = write_if_changed(os.path.join(outdir, "SrcMirror%sObl.lean" % group), "\n".join(obl))
-        info["groups"][group] = len(names)
-        info["obligations"] += len(names)
+        info["groups"][group] = len(names) + len(twin_names)
+        info["obligations"] += len(names) + len(twin_names)
         info["changed"] = info["changed"] or bool(ch1 or ch2)
     info["source_hash"] = hashlib.sha256(json.dumps(cur, sort_keys=True).encode()).hexdigest()[:16]
     return info
